@@ -211,6 +211,21 @@ func runScript(c Case, res *lib.Result) (ret string) {
 		res.Count(fmt.Sprintf("script:read-class=%d", cl))
 		if cl == 1 {
 			checkClean(c, d, delivered, res, "")
+			// a stream that goes on beyond the stated size does not match the descriptor either: no clean end
+			total, plain := 0, true
+			for _, st := range c.Script {
+				total += len(st.B)
+				if st.Ev == 2 {
+					plain = false
+				}
+			}
+			seeks := false
+			for _, o := range c.Ops {
+				seeks = seeks || o.Seek
+			}
+			if plain && !seeks && d.Size > 0 && int64(total) > d.Size && int64(len(delivered)) <= d.Size {
+				res.Fail("clean-eof-on-overlong-stream kind=script", fmt.Sprintf("the source serves %d bytes, the descriptor states %d: the read ended cleanly after %d bytes", total, d.Size, len(delivered)), c)
+			}
 		}
 		obs = append(obs, fmt.Sprintf("(%s, %d%%nat)", coqBytes(p[:n]), cl))
 	}
